@@ -206,8 +206,14 @@ class ConvexPolygon(Polygon):
         angles = np.mod(angles, 2 * np.pi)
         num_verts = len(self.vertices)
 
-        # Rearrange the verts so that we start with the lowest angle
-        verts, _ = _align_points_by_normal(self.normal, self.vertices - center)
+        # Rearrange the verts so that we start with the lowest angle. Angles are
+        # measured counterclockwise about +z, so a polygon whose normal points along
+        # -z (vertices given clockwise) must not be mirrored by the alignment.
+        normal = self.normal if self.normal[2] >= 0 else -self.normal
+        verts, _ = _align_points_by_normal(normal, self.vertices - center)
+        if self.normal[2] < 0:
+            # Restore counterclockwise order about +z for the angular bins below.
+            verts = verts[::-1]
         angles_to_vertices = np.arctan2(verts[:, 1], verts[:, 0])
         np.mod(angles_to_vertices, 2 * np.pi, out=angles_to_vertices)
 
